@@ -270,4 +270,61 @@ theorem accepted_integer_read_consistently {g g' : G} {i src : Nat} {v : Str} {m
         · simp [h1, h2] at hgood
       · simp [h1] at hgood
 
+/-- **`esl_getopts_CreateDefaultApp` returns the object exactly when** the command line parses, the configuration
+    verifies, `-h` was not given and the number of remaining arguments is the required one (or `nargs = -1`);
+    the returned object is the one `esl_opt_ProcessCmdline` produced -/
+theorem createDefaultApp_returns_iff (opts : List Opt) (nargs : Int) (argv : List Str) (g : G) :
+    createDefaultApp opts nargs argv = some (.returned g) ↔
+      ∃ g0 m i, create opts = some g0 ∧ processCmdline g0 argv = .done g .ok m ∧ (verifyConfig g).1 = .ok ∧
+        optidxExactly opts ['-', 'h'] = some i ∧ (g.opt i).type = 0 ∧ (g.valOf i).isNull = true ∧
+        (nargs = -1 ∨ argNumber g = nargs) := by
+  unfold createDefaultApp
+  constructor
+  · intro h
+    cases hc : create opts with
+    | none => simp [hc] at h
+    | some g0 =>
+      simp only [hc] at h
+      cases hp : processCmdline g0 argv with
+      | fault => simp [hp] at h
+      | done g1 st m =>
+        simp only [hp] at h
+        by_cases hst : st = .ok
+        · subst hst
+          simp only [bne_self_eq_false, Bool.false_eq_true, ↓reduceIte] at h
+          by_cases hv : (verifyConfig g1).1 = .ok
+          · simp only [hv, bne_self_eq_false, Bool.false_eq_true, ↓reduceIte] at h
+            cases hi : optidxExactly opts ['-', 'h'] with
+            | none => simp [hi] at h
+            | some i =>
+              simp only [hi] at h
+              by_cases ht : (g1.opt i).type = 0
+              · simp only [ht, bne_self_eq_false, Bool.false_eq_true, ↓reduceIte] at h
+                by_cases hn : (g1.valOf i).isNull = true
+                · simp only [hn, Bool.not_true, Bool.false_eq_true, ↓reduceIte] at h
+                  by_cases hk : (nargs != -1 && argNumber g1 != nargs) = true
+                  · simp [hk] at h
+                  · simp only [hk, Bool.false_eq_true, ↓reduceIte, Option.some.injEq, AppOutcome.returned.injEq] at h
+                    subst h
+                    refine ⟨g0, m, i, rfl, hp, hv, rfl, ht, hn, ?_⟩
+                    simp only [Bool.and_eq_true, bne_iff_ne, ne_eq, not_and, Decidable.not_not] at hk
+                    by_cases h1 : nargs = -1
+                    · exact Or.inl h1
+                    · exact Or.inr (hk h1)
+                · simp [hn] at h
+              · have : ((g1.opt i).type != 0) = true := by simpa using ht
+                simp [this] at h
+          · have : ((verifyConfig g1).1 != .ok) = true := by simpa using hv
+            simp [this] at h
+        · have : (st != .ok) = true := by simpa using hst
+          simp [this] at h
+  · rintro ⟨g0, m, i, hc, hp, hv, hi, ht, hn, hk⟩
+    simp only [hc, hp, bne_self_eq_false, Bool.false_eq_true, ↓reduceIte, hv, hi, ht, hn, Bool.not_true]
+    have : (nargs != -1 && argNumber g != nargs) = false := by
+      rcases hk with hk | hk
+      · simp [hk]
+      · simp [hk]
+    simp [this]
+
+
 end EaselModel.Getopts
